@@ -41,8 +41,12 @@ def capacity(F, S):
         iw = widths[m.group(1).strip()]
     cmax = (1 << iw) - 1
     root = ("idx", ("mem", ("this",), "subtreeCount"), ("mem", ("this",), "rootNodeIndex"))
-    good = any((f[0] == "!=" and root in (f[1], f[2]) and ("const", cmax) in (f[1], f[2])) or
-               (f[0] == "<" and f[1] == root and f[2] == ("const", cmax)) for f in site)
+    def refusal(f):
+        return (f[0] == "!=" and root in (f[1], f[2]) and ("const", cmax) in (f[1], f[2])) or \
+            (f[0] == "<" and f[1] == root and f[2] == ("const", cmax))
+    # the fact itself, or (when the first store sits in a loop whose later iterations have changed the counts) the
+    # un-killable record that the refusal was passed on every path into the loop
+    good = any(refusal(f) or (f[0] == "ev" and f[1] == "passed" and refusal(f[2])) for f in site)
     inst = AH + "::UpdateCodeCount#capacity"
     req = "the update that would wrap the %d-bit counters (root count == %d) is refused before the first count is changed" % (iw, cmax)
     if good:
@@ -329,5 +333,5 @@ def check(F, run, tier):
     run.add(path_accumulator(F, S))
     obs, n = link_or_data_split(F, S)
     run.add(obs)
-    run.floor("link-data-tests", n, 3)
+    run.floor("link-data-tests", n, 2)
     run.floor("obligations", len(run.obligations), 15)
